@@ -1443,3 +1443,84 @@ func dataLoadContextReducedOnce(c *eng.Ctx) {
 		}
 	})
 }
+
+// ---- F61 (C18): what a (re-)established watch reports as the current content reaches the listeners -------------------------------------------
+func watchResyncReachesTheListeners(c *eng.Ctx) {
+	p := c.P
+	c.Rule("EXHAUSTIVE", "coordinator/discovery.discovery.handlerResourceChange{every watch event type is handled; a re-sync deletes what is gone}", func() {
+		f := c.Fn("coordinator/discovery.discovery.handlerResourceChange")
+		pk := p.Package("pkg/state")
+		if pk == nil {
+			c.Undecided("pkg/state not loaded")
+		}
+		names := constsOfType(pk, "EventType")
+		if len(names) < 3 {
+			c.Undecided("EventType constants not found")
+		}
+		// the constants event.Type is compared with (a switch is a chain of comparisons in SSA)
+		handled := map[int64]bool{}
+		for _, b := range eng.BlocksT(f) {
+			for _, in := range b.Instrs {
+				bo, ok := in.(*ssa.BinOp)
+				if !ok || bo.Op != token.EQL {
+					continue
+				}
+				x, y := bo.X, bo.Y
+				if _, isC := eng.ConstInt(x); isC {
+					x, y = y, x
+				}
+				k, isC := eng.ConstInt(y)
+				if !isC || !eng.DependsOnField(x, "pkg/state.Event.Type") {
+					continue
+				}
+				handled[k] = true
+			}
+		}
+		for _, n := range names {
+			obj := pk.Types.Scope().Lookup(n)
+			cst, ok := obj.(*types.Const)
+			if !ok {
+				continue
+			}
+			v, _ := constant.Int64Val(cst.Val())
+			c.Check(handled[v], "handled:"+n, nil, f,
+				"every event type the repository's watch can deliver has a case: EventTypeAll is what a watch sends when it is (re-)established - the CURRENT content of the prefix - and it is the only way deletions and creations that happened while no watch was running (between the initial List and the watch, or during a re-watch after a connection loss / compaction) reach the master; dropped, a node that died in that gap stays 'live' and keeps its leaderships for ever",
+				"no case for "+n)
+		}
+		// the re-sync case reaches OnDelete (for keys that are gone) as well as OnCreate
+		allObj, _ := pk.Types.Scope().Lookup("EventTypeAll").(*types.Const)
+		if allObj == nil {
+			c.Undecided("EventTypeAll not found")
+		}
+		allV, _ := constant.Int64Val(allObj.Val())
+		for _, b := range eng.BlocksT(f) {
+			ifi, ok := b.Instrs[len(b.Instrs)-1].(*ssa.If)
+			if !ok {
+				continue
+			}
+			bo, ok := eng.Unwrap(ifi.Cond).(*ssa.BinOp)
+			if !ok || bo.Op != token.EQL {
+				continue
+			}
+			x, y := bo.X, bo.Y
+			if _, isC := eng.ConstInt(x); isC {
+				x, y = y, x
+			}
+			if k, isC := eng.ConstInt(y); !isC || k != allV || !eng.DependsOnField(x, "pkg/state.Event.Type") {
+				continue
+			}
+			first := b.Succs[0].Instrs[0]
+			reach := func(method string) bool {
+				m := invokeOn(".listener", method)
+				if m(p, first) {
+					return true
+				}
+				_, ok := eng.PathExists(eng.PathQuery{Fn: b.Parent(), After: first, Target: func(x ssa.Instruction) bool { return m(p, x) },
+					Blocked: func(x ssa.Instruction) bool { return x.Block() == b && x == b.Instrs[0] }})
+				return ok
+			}
+			c.Check(reach("OnDelete") && reach("OnCreate"), "resync-creates-and-deletes", ifi, f,
+				"the re-sync case announces both what exists (OnCreate) and what the listeners know but is gone (OnDelete)", fmt.Sprintf("OnDelete reachable: %v, OnCreate reachable: %v", reach("OnDelete"), reach("OnCreate")))
+		}
+	})
+}
